@@ -34,8 +34,25 @@ Definition e_run (r : list report * list obs) : sexp := e_pair (e_list e_report)
    7, 8: the same two in strict mode (the first report raises)
    10: both engine runs from a file read FILTERED by the citations (end-to-end stream)   arg (file citations min_crossrefs fields)
    11: read_filtered                                        arg (file (citations)|())
+   13: a history of look-ups and edits on live objects     arg (db ops)
    12: BST fields vs names() of the stock styles, from files  arg (file_bst file_py citations min_crossrefs roles)
    9: Entry._find_field for every entry x every name   arg (db names use_bib_data) *)
+(* history op on the wire: (code key field (value)|() n)
+   0 lookup (n = through which API, not the model's business)   1 set field   2 delete field
+   3 set (value) / remove () the crossref   4 new BibliographyData   5 replace by a new object n with title value *)
+Definition d_hop (s : sexp) : hop :=
+  let k := d_str (d_nth s 1) in let f := d_str (d_nth s 2) in
+  let v := d_opt d_str (d_nth s 3) in
+  let v' := match v with Some x => x | None => [] end in
+  match d_Z (d_nth s 0) with
+  | 0%Z => HLookup k f
+  | 1%Z => HSetField k f v'
+  | 2%Z => HDelField k f
+  | 3%Z => match v with Some t => HSetField k s_crossref t | None => HDelField k s_crossref end
+  | 5%Z => HReplace k (d_nat (d_nth s 4)) v'
+  | _ => HNewDb
+  end.
+
 (* the rendered text of the stock styles identifies an entry by a token, not by entry.key: compare modulo case *)
 Definition lower_keys (r : res (list report * list obs)) : res (list report * list obs) :=
   match r with
@@ -73,6 +90,7 @@ Definition dispatch (fn : Z) (a : sexp) : sexp :=
             let cs := d_list d_str (d_nth a 2) in let roles := d_list d_str (d_nth a 4) in
             L [e_res e_run (bst_run_file d cs (d_Z (d_nth a 3)) roles);
                e_res e_run (lower_keys (format_bibliography_names (read_filtered (Some cs) dP) cs (d_Z (d_nth a 3)) roles))]
+  | 13%Z => e_list (e_opt (e_res (e_opt e_str))) (run_history d (d_list d_hop (d_nth a 1)))
   | _ => L []
   end.
 
